@@ -400,6 +400,10 @@ func (fc *FuncCtx) unop(fr *Frame, st *State, x *ssa.UnOp) {
 		fr.regs[x] = Val{T: Not(fc.value(fr, x.X).T)}
 	case token.SUB:
 		v := fc.value(fr, x.X).T
+		if v.Sort == SXReal {
+			fr.regs[x] = Val{T: XNeg(v)}
+			return
+		}
 		fr.regs[x] = Val{T: fc.wrapInt(Neg(v), x.Type())}
 	case token.XOR:
 		v := fc.value(fr, x.X).T
@@ -466,6 +470,31 @@ func (fc *FuncCtx) binop(fr *Frame, st *State, x *ssa.BinOp) *Term {
 	xt := x.X.Type()
 	isStr := a.Sort == SStr
 	isFloat := a.Sort == SReal || b.Sort == SReal
+	if a.Sort == SXReal || b.Sort == SXReal {
+		switch x.Op {
+		case token.ADD:
+			return XAdd(a, b)
+		case token.SUB:
+			return XSub(a, b)
+		case token.MUL:
+			return XMul(a, b)
+		case token.QUO:
+			return XDiv(a, b)
+		case token.EQL:
+			return XEq(a, b)
+		case token.NEQ:
+			return Not(XEq(a, b))
+		case token.LSS:
+			return XCmp("<", a, b)
+		case token.LEQ:
+			return XCmp("<=", a, b)
+		case token.GTR:
+			return XCmp(">", a, b)
+		case token.GEQ:
+			return XCmp(">=", a, b)
+		}
+		unsupp("float operator %s", x.Op)
+	}
 	switch x.Op {
 	case token.ADD:
 		if isStr {
@@ -682,9 +711,17 @@ func (fc *FuncCtx) convert(fr *Frame, st *State, x *ssa.Convert) {
 			}
 			fr.regs[x] = Val{T: v}
 		case fb.Info()&types.IsInteger != 0 && tb.Info()&types.IsFloat != 0:
+			if floatSort == SXReal {
+				fr.regs[x] = Val{T: XFin(ToReal(xv.T))}
+				return
+			}
 			fr.regs[x] = Val{T: ToReal(xv.T)}
 		case fb.Info()&types.IsFloat != 0 && tb.Info()&types.IsInteger != 0:
 			r := xv.T
+			if r.Sort == SXReal {
+				fc.addObl(fr, st, "fdomain", "float to int conversion of a finite value", XIsFin(r), x.Pos(), "conversion of NaN or an infinity to an integer")
+				r = XVal(r)
+			}
 			tr := Ite(Ge(r, RealLitStr("0")), mk("to_int", SInt, r), Neg(mk("to_int", SInt, Neg(r))))
 			fr.regs[x] = Val{T: tr}
 		case fb.Info()&types.IsFloat != 0 && tb.Info()&types.IsFloat != 0:
